@@ -359,6 +359,10 @@ pub enum MsgAttr {
     Marker(u32),
     /// `derive(PartialOrd)`
     DerivePartialOrd,
+    /// a forwarded derive list holding a uniquely named (non-existent) derive whose name ends
+    /// like one the framework derives itself, e.g. `derive(Eq, vp::Vp17Serialize)`
+    /// (token-level programs only)
+    DeriveMarker(u32),
 }
 
 /// How an interface relates to the chain-custom types.
@@ -383,6 +387,9 @@ pub struct Interface {
     /// names of those associated types (empty = `A0`, `A1`..)
     #[serde(default)]
     pub assoc_names: Vec<String>,
+    /// variant name given with `as` in `sv::messages` when it differs from the trait name
+    #[serde(default)]
+    pub alias: Option<String>,
     pub style: CustomStyle,
     pub methods: Vec<Method>,
     pub msg_attrs: Vec<(Kind, MsgAttr)>,
@@ -416,6 +423,10 @@ pub struct Contract {
     /// query's return type is *not* a parameter of the query message)
     #[serde(default)]
     pub query_err_param: Option<usize>,
+    /// the impl block also declares a lifetime parameter (`impl<'a, T0> Ctr<'a, T0>`), which no
+    /// message uses (token-level programs only: the compiled families do not set it)
+    #[serde(default)]
+    pub lifetime: bool,
 }
 
 #[derive(Clone, Debug, PartialEq, Eq, Hash, Serialize, Deserialize)]
